@@ -139,23 +139,55 @@ def check(chk):
         f = pool.func(q)
         g = CFG(f)
 
+        # what the new connection has selected: 'fresh' (nothing yet), 'direct' (self._keyspace itself), ('name', v) (the value of local v, not reassigned since), 'stale' / 'other'
         def step(node, c):
             if node.ast is not None and node.kind == 'stmt':
                 for n in walk_no_nested(node.ast):
-                    if isinstance(n, ast.Call) and src(n.func) == 'conn.set_keyspace_blocking':
-                        return 'set'
+                    if isinstance(n, ast.Call) and src(n.func) == 'conn.set_keyspace_blocking' and n.args:
+                        a0 = n.args[0]
+                        return 'direct' if src(a0) in ('self._keyspace', 'self._session.keyspace') else (('name', a0.id) if isinstance(a0, ast.Name) else 'other')
+                if isinstance(node.ast, ast.Assign) and isinstance(c, tuple) and any(isinstance(t, ast.Name) and t.id == c[1] for t in node.ast.targets):
+                    return 'stale'
             return c
-        fl = Flow(g, 'unset', step)
+        fl = Flow(g, 'fresh', step)
         pubs = [n for n in g.stmt_nodes() if n.kind == 'stmt' and isinstance(n.ast, ast.Assign) and src(n.ast.targets[0]) == pub]
         if not pubs:
             raise AnalysisError('%s: publication not found' % q)
         ok = True
+        locals_ = sorted(set(x.id for x in ast.walk(f) if isinstance(x, ast.Name)))
         for p in pubs:
             for fa, c in fl.at(p):
-                if c != 'set' and fa.knows('self._keyspace') is not False:
-                    ok = False
+                if c == 'direct' or fa.knows('self._keyspace') is False:
+                    continue
+                # the pool keyspace equals local v, and v is what the connection selected (or v is None and nothing was selected)
+                same = [v for v in locals_ if fa.knows('self._keyspace == %s' % v) is True or fa.knows('%s == self._keyspace' % v) is True]
+                if any(c == ('name', v) or (c == 'fresh' and fa.knows('%s is None' % v) is True) for v in same):
+                    continue
+                ok = False
         chk.judge(ok, 'C20.newconn', f, '%s: keyspace selected before the connection is published (when the pool has one)' % q,
                   'a new connection can be handed out before the pool\'s keyspace was selected on it')
+
+    # ---- a USE that arrives while a replacement / additional connection is being prepared: the writer of the pool's keyspace and the publication
+    # of the new connection have to exclude each other, and the publisher has to look at the keyspace again before it publishes
+    chk.rule('C20.install', 'the keyspace selected on a new connection is compared with self._keyspace again inside the critical section that publishes the connection, '
+                            'and _set_keyspace_for_all_conns stores self._keyspace (and reads the connections) under the same lock')
+    from ..locks import held as _held
+    for cls_, fn_, attr_ in (('HostConnection', '_replace', '_connection'), ('HostConnectionPool', '_add_conn_if_under_max', '_connections')):
+        f = pool.func('%s.%s' % (cls_, fn_))
+        w = pool.func('%s._set_keyspace_for_all_conns' % cls_)
+        pubs = [st for st in body_walk(f) if isinstance(st, ast.Assign) and src(st.targets[0]) == 'self.%s' % attr_]
+        if not pubs:
+            raise AnalysisError('%s.%s: publication of self.%s not found' % (cls_, fn_, attr_))
+        rechecked = True
+        for p_ in pubs:
+            regions = [w_ for l_, w_ in _held(p_) if l_ == ('self', '_lock')]
+            rechecked = rechecked and bool(regions) and any(isinstance(x, (ast.If, ast.While)) and 'self._keyspace' in src(x.test) for x in ast.walk(regions[0]))
+        wr = [st for st in body_walk(w) if isinstance(st, ast.Assign) and src(st.targets[0]) == 'self._keyspace']
+        locked_w = bool(wr) and all(holds(st, ('self',), '_lock') for st in wr)
+        chk.judge(rechecked and locked_w, 'C20.install', f, '%s.%s: the new connection is published only if its keyspace is still the pool\'s (re-checked under the lock the keyspace writer takes)' % (cls_, fn_),
+                  '%s.%s reads self._keyspace, selects it on the new connection (a blocking round trip) and then publishes the connection without looking again; %s._set_keyspace_for_all_conns '
+                  'stores the new keyspace %s and sends USE to the connections it finds at that moment: a USE that arrives in between is reported as applied while the connection published '
+                  'a moment later is on the old keyspace' % (cls_, fn_, cls_, 'under the lock' if locked_w else 'without the lock'))
 
     # ---- connection
     sa = conn.func('Connection.set_keyspace_async')
